@@ -448,3 +448,40 @@ def load(tu):
         _loaded[tu] = Index(fe.ast_dump(tu))
         _loaded[tu].tu = tu
     return _loaded[tu]
+
+
+def format_arity(idx, func):
+    """For every boost::format chain in a function: (position, literal, number of conversions, number of % operands)."""
+    import re as _re
+    out = []
+    if func.body is None:
+        return out
+    inner_ids = set()
+    chains = []
+    for n in walk(func.body):
+        if n['kind'] == 'CXXOperatorCallExpr' and callee_of(n)[1] == 'operator%':
+            chains.append(n)
+            a = call_args(n)
+            for x in walk(a[0]):
+                if x is not n and x['kind'] == 'CXXOperatorCallExpr' and callee_of(x)[1] == 'operator%':
+                    inner_ids.add(x['id'])
+    for n in chains:
+        if n['id'] in inner_ids:
+            continue
+        # outermost: count operands down the left spine
+        cnt = 0
+        x = n
+        while x['kind'] == 'CXXOperatorCallExpr' and callee_of(x)[1] == 'operator%':
+            cnt += 1
+            x = strip(call_args(x)[0])
+            while x['kind'] in ('CXXBindTemporaryExpr', 'MaterializeTemporaryExpr', 'ExprWithCleanups', 'ParenExpr'):
+                x = children(x)[0]
+        lit = string_lit(x)
+        if lit is None:
+            continue
+        body = lit.replace('%%', '')
+        convs = _re.findall(r'%(?:\d+%|[#0\- +]*\d*(?:\.\d+)?[a-zA-Z])', body)
+        pos_args = [int(c[1:-1]) for c in convs if c.endswith('%') and c[1:-1].isdigit()]
+        need = max(pos_args) if pos_args else len(convs)
+        out.append((pos(n), lit, need, cnt))
+    return out
